@@ -129,3 +129,170 @@ def fk_gen(rng, tier):
         outs = [k for k in names if rng.random() < 0.3]
         store = {k: DirectValue(f"stored:{k}") for k in outs}
         yield {"func": _Fn(params, pick("bound")), "run_info": _RI(pick("input"), pick("default"), outs), "store": store}
+
+
+# ---- _get_or_set_cache: the cache of a map run never changes what a call returns (C09) ------------------------------------
+from pyvc.types import TBool, TInt, TReal  # noqa: E402
+
+MapKey = TRec("MapCacheKey", {"out": TOut, "h": TObj}, to_py=lambda d: (d["out"], d["h"]),
+              from_py=lambda t: {"out": t[0], "h": t[1]})
+# (`state`: what the container holds - opaque here; a put changes it, membership and lookup are functions of it)
+MapCacheV = TRec("MapCacheV", {"cid": TObj, "is_hybrid": TBool, "state": TObj})
+MapCacheV.class_tests = {"HybridCache": "is_hybrid"}
+ComputeFnV = TRec("ComputeFnV", {"fid": TObj, "calls": TInt})
+PipeFuncOutV = TRec("PipeFuncOutV", {"output_name": TOut})
+
+to_hashable_kw = Contract("pipefunc/cache.py::to_hashable", params={"obj": DSO}, returns=TObj, trusted=True, pure=True,
+                          note="the key function H of C15 applied to the keyword arguments: deterministic")
+monotonic = Contract("time::time.monotonic", params={}, returns=TReal, trusted=True, pure=False, static=True)
+mc_contains = Contract(f"{F}::MapCacheV.__contains__", params={"self": MapCacheV, "key": MapKey}, returns=TBool,
+                       trusted=True, pure=True, note="membership of a key (the containers' own contracts are C14)")
+mc_get = Contract(f"{F}::MapCacheV.get", params={"self": MapCacheV, "key": MapKey}, returns=TObj, trusted=True, pure=True,
+                  note="the value stored under a key (recency bookkeeping of the container is C14's business)")
+
+
+def _mc_has(S, c, k):
+    return S.uf("fn:MapCacheV.__contains__", TBool, c, k) if S.symbolic else (k in c)
+
+
+def _mc_val(S, c, k):
+    return S.uf("fn:MapCacheV.get", TObj, c, k) if S.symbolic else c.get(k)
+
+
+def _put_ensures(S, a, r, post):
+    if not S.symbolic:
+        return {}
+    return {"the key is resident with the value just put (C14: put stores, a full cache evicts another entry)": S.and_(
+        _mc_has(S, post.self, a.key), lambda: S.eq(_mc_val(S, post.self, a.key), a.value)),
+        "same container": S.and_(S.eq(post.self.cid, a.self.cid), post.self.is_hybrid == a.self.is_hybrid)}
+
+
+mc_put = Contract(f"{F}::MapCacheV.put", params={"self": MapCacheV, "key": MapKey, "value": TObj, "duration": TOpt(TReal)},
+                  defaults={"duration": None}, returns=None, trusted=True, pure=False, modifies=("self",),
+                  ensures=_put_ensures,
+                  note="cache.put (HybridCache takes the computation time as third argument): assumed to leave the key "
+                       "resident with the value, max_size >= 1")
+
+
+def _value_of(S, fn):
+    return S.uf("spec:value-computed-by", TObj, fn.fid) if S.symbolic else fn.value
+
+
+compute_call = Contract(
+    f"{F}::ComputeFnV.__call__", params={"self": ComputeFnV}, returns=TObj, trusted=True, pure=False, modifies=("self",),
+    ensures=lambda S, a, r, post: ({
+        "one more call": post.self.calls == a.self.calls + 1, "same function": S.eq(post.self.fid, a.self.fid),
+        "its value": S.eq(r, _value_of(S, a.self))} if S.symbolic else {}),
+    note="the closure that runs the user's function on the selected arguments: deterministic; its only modelled effect is "
+         "the ghost call counter",
+)
+
+
+def _key(S, a):
+    if S.symbolic:
+        from pyvc.types import Val, unwrap
+        h = S.uf("fn:to_hashable", TObj, a.kwargs)
+        return unwrap(Val(MapKey, MapKey.mk(out=a.func.output_name.t if hasattr(a.func.output_name, "t") else a.func.output_name,
+                                            h=h.t if hasattr(h, "t") else h)))
+    from pipefunc.cache import to_hashable
+    return (a.func.output_name, to_hashable(a.kwargs))
+
+
+def _gsc_ensures(S, a, r, post):
+    no_cache = S.is_none(a.cache)
+    calls0, calls1 = a.compute_fn.calls, post.compute_fn.calls
+    hit = lambda: _mc_has(S, S.some(a.cache), _key(S, a))  # noqa: E731
+    return {
+        "without a cache: the function runs once and its value is returned": S.implies(no_cache, lambda: S.and_(
+            calls1 == calls0 + 1, lambda: S.eq(r, _value_of(S, a.compute_fn)))),
+        "hit: the stored value is returned and nothing runs": S.implies(S.and_(S.not_(no_cache), hit), lambda: S.and_(
+            calls1 == calls0, lambda: S.eq(r, _mc_val(S, S.some(a.cache), _key(S, a))))),
+        "miss: the function runs exactly once, its value is returned and is afterwards resident under the key of "
+        "(output name, keyword arguments)": S.implies(S.and_(S.not_(no_cache), lambda: S.not_(hit())), lambda: S.and_(
+            calls1 == calls0 + 1, lambda: S.eq(r, _value_of(S, a.compute_fn)),
+            lambda: _mc_has(S, S.some(post.cache), _key(S, a)),
+            lambda: S.eq(_mc_val(S, S.some(post.cache), _key(S, a)), _value_of(S, a.compute_fn)))),
+    }
+
+
+get_or_set_cache = Contract(
+    f"{F}::_get_or_set_cache",
+    params={"func": PipeFuncOutV, "kwargs": DSO, "cache": TOpt(MapCacheV), "compute_fn": ComputeFnV}, returns=TObj,
+    modifies=("cache", "compute_fn"), pure=False, ensures=_gsc_ensures,
+)
+ALL += [to_hashable_kw, monotonic, mc_contains, mc_get, mc_put, compute_call, get_or_set_cache]
+
+
+class _CountFn:
+    """compute_fn of the bounded rung: counts its calls, returns a value naming itself."""
+
+    def __init__(self, fid):
+        self.fid, self.calls, self.value = fid, 0, ("computed-by", fid)
+
+    def __call__(self):
+        self.calls += 1
+        return self.value
+
+    def __repr__(self):
+        return f"CountFn({self.fid!r}, calls={self.calls})"
+
+
+def _fake_caches():
+    from pipefunc.cache import HybridCache, _CacheBase
+
+    class Plain(_CacheBase):
+        is_hybrid = False
+
+        def __init__(self, d):
+            self.d, self.cid, self.state = dict(d), "plain", None
+
+        def __contains__(self, k):
+            return k in self.d
+
+        def __len__(self):
+            return len(self.d)
+
+        def get(self, k):
+            return self.d.get(k)
+
+        def put(self, k, v):
+            self.d[k] = v
+
+        def clear(self):
+            self.d.clear()
+
+        def __deepcopy__(self, memo):
+            return type(self)(self.d)
+
+        def __repr__(self):
+            return f"{type(self).__name__}({self.d!r})"
+
+    class Hybrid(HybridCache):
+        is_hybrid = True
+        __init__ = Plain.__init__
+        __contains__, __len__, get, clear = Plain.__contains__, Plain.__len__, Plain.get, Plain.clear
+        __deepcopy__, __repr__ = Plain.__deepcopy__, Plain.__repr__
+
+        def put(self, k, v, duration):
+            assert isinstance(duration, float) and duration >= 0
+            self.d[k] = v
+
+        def __init__(self, d):  # noqa: F811
+            self.d, self.cid, self.state = dict(d), "hybrid", None
+    return Plain, Hybrid
+
+
+def gsc_gen(rng, tier):
+    from types import SimpleNamespace
+    from pipefunc.cache import to_hashable
+    Plain, Hybrid = _fake_caches()
+    for q in range(400 if tier == "quick" else 4000):
+        out = rng.choice(["a", "b", ("a", "b")])
+        kwargs = {k: rng.randint(0, 1) for k in rng.sample(["x", "y"], rng.randint(0, 2))}
+        store = {}
+        for o in ("a", "b", ("a", "b")):
+            for kw in ({}, {"x": 0}, {"x": 1}, {"y": 0}, {"x": 0, "y": 1}, {"y": 1, "x": 0}):
+                if rng.random() < 0.25:
+                    store[(o, to_hashable(kw))] = ("stored", o, tuple(sorted(kw.items())))
+        cache = None if rng.random() < 0.2 else (Hybrid(store) if rng.random() < 0.5 else Plain(store))
+        yield {"func": SimpleNamespace(output_name=out), "kwargs": kwargs, "cache": cache, "compute_fn": _CountFn(f"f{q}")}
